@@ -32,6 +32,15 @@ def interval_r(chrgrp, genpos, unlinked=False):
     return r
 
 
+def map_order(chrgrp, genpos):
+    """Order of the loci along the genetic map (chromosome, then genetic position; stable).  Crossovers happen along
+    the chromosome, so the origin pattern of a gamete switches between loci that are *adjacent on the map*, whatever
+    the order in which the markers happen to be stored."""
+    chrgrp = numpy.asarray(chrgrp)
+    genpos = numpy.asarray(genpos, dtype=float)
+    return numpy.lexsort((genpos, chrgrp))
+
+
 def hap_index(h):
     """Haplotype (sequence of 0/1 alleles) -> integer state, locus j = bit j."""
     return int(sum((int(a) & 1) << j for j, a in enumerate(h)))
